@@ -484,8 +484,14 @@ func drive(spec propSpec, tier string, ti int, seed int64, replay, scratch strin
 		ev["harness_trouble"] = harnessTrouble
 	}
 	b, _ := json.MarshalIndent(ev, "", " ")
-	os.MkdirAll(filepath.Join(verifDir, "evidence"), 0o755)
-	if err := os.WriteFile(filepath.Join(verifDir, "evidence", spec.ID+".json"), b, 0o644); err != nil {
+	// evidence describes /repo itself; a run against another checkout (--repo: a scratch
+	// worktree with a seeded change) writes its report next to it, never over it
+	evDir := "evidence"
+	if repoDir != "/repo" {
+		evDir = "evidence-other"
+	}
+	os.MkdirAll(filepath.Join(verifDir, evDir), 0o755)
+	if err := os.WriteFile(filepath.Join(verifDir, evDir, spec.ID+".json"), b, 0o644); err != nil {
 		fmt.Fprintln(os.Stderr, "cannot write evidence:", err)
 		return 2
 	}
